@@ -271,9 +271,44 @@ fn forms_case(c: &(u8, u8, u8, u8, u8), obs: &mut Obs) -> CaseResult {
 
 const FLAG_DOMAIN: u64 = (1 << 0) | (1 << 2) | (1 << 4) | (1 << 6) | (1 << 7) | (1 << 10) | (1 << 11) | (1 << 21);
 
+/// vectors whose delivery terminated a forked child (found by the smoke sub-check); the in-process
+/// delivery skips them so that the rest of the check can still run
+static mut BAD_VECTORS: [bool; 256] = [false; 256];
+
+/// One delivery per vector in a forked child process: a stub that kills the process (e.g. by panicking
+/// inside the non-unwinding interrupt ABI) becomes a reported violation instead of a dead worker.
+fn smoke_case(v: &u8, obs: &mut Obs) -> CaseResult {
+    let v = *v;
+    let case = (v, 0xfeed_0000_0000_0000u64 | v as u64, 8 * v as u32 + 8, 0x8c5u64, v & 1 == 0);
+    let pid = unsafe { libc::fork() };
+    ensure!(pid >= 0, "fork failed");
+    if pid == 0 {
+        let mut o = Obs::default();
+        let r = delivery_case(&case, &mut o);
+        unsafe { libc::_exit(if r.is_ok() { 0 } else { 3 }) };
+    }
+    let mut status = 0i32;
+    unsafe { libc::waitpid(pid, &mut status, 0) };
+    if libc::WIFSIGNALED(status) {
+        unsafe { BAD_VECTORS[v as usize] = true };
+        return Err(format!("delivering vector {} terminated the process with signal {} (the stub did not return to the interrupted code and did not reach the general handler's exit)", v, libc::WTERMSIG(status)));
+    }
+    if libc::WIFEXITED(status) && libc::WEXITSTATUS(status) == 3 {
+        // an ordinary oracle failure: re-run in-process to obtain the message
+        let mut o = Obs::default();
+        return delivery_case(&case, &mut o);
+    }
+    ensure!(libc::WIFEXITED(status) && libc::WEXITSTATUS(status) == 0, "child for vector {} ended with status {:#x}", v, status);
+    obs.nontrivial(&v);
+    Ok(())
+}
+
 fn delivery_case(c: &(u8, u64, u32, u64, bool), obs: &mut Obs) -> CaseResult {
     let (v, err, rsp_off, flags, which_table) = *c;
     let v = v as usize;
+    if unsafe { BAD_VECTORS[v] } {
+        return Ok(());
+    }
     let idt = if which_table { FULL.with(|t| t.clone()) } else { FULL_INCL.with(|t| t.clone()) };
     let e = raw(&idt)[v];
     if reserved(v) {
@@ -394,6 +429,18 @@ pub fn run(run: &mut Run) {
         (0u8..5, any::<u8>(), any::<u8>(), 0u8..3, 0u8..3),
         forms_case,
     );
+    run.exhaustive(
+        "delivery_smoke",
+        "one simulated delivery per vector (all 256) in a forked child process, same oracle as 'delivery': a stub that terminates the process instead of returning to the interrupted code is reported as a violation (and that vector is skipped by the in-process deliveries)",
+        0u8..=255,
+        smoke_case,
+    );
+    if run.worker != 0 && !matches!(run.mode, crate::engine::Mode::Replay { .. }) {
+        // other workers only need to learn which vectors to skip (worker 0 reports them)
+        for v in 0u8..=255 {
+            let _ = smoke_case(&v, &mut Obs::default());
+        }
+    }
     let n = run.cases(600_000, 24_000_000);
     run.sub(
         "delivery",
